@@ -268,7 +268,8 @@ def fail_position_programs(procs_choices):
 TABLE = {}
 COUNT = {}
 SCALE = "1"
-SCALES = {"1": 1, "q": 0.25, "big": 2 ** 61}
+SCALES = {"1": 1, "q": 0.25, "big": 2 ** 61, "qoff": 0.25}
+OFFSETS = {"qoff": float(2 ** 40)}      # large magnitude, small spread: only used with the (shift-invariant) variance modes
 MODES = {"MIN": ScoreMode.MIN, "MAX": ScoreMode.MAX, "MIN_MEAN": ScoreMode.MIN_MEAN, "MAX_MEAN": ScoreMode.MAX_MEAN,
          "MIN_SUM": ScoreMode.MIN_SUM, "MAX_SUM": ScoreMode.MAX_SUM, "MIN_VARIANCE": ScoreMode.MIN_VARIANCE,
          "MAX_VARIANCE": ScoreMode.MAX_VARIANCE}
@@ -288,7 +289,7 @@ class SearchModel(Model):
 
 
 def score_func(model):
-    return TABLE[model.key][model.rep] * SCALES[SCALE]
+    return OFFSETS.get(SCALE, 0) + TABLE[model.key][model.rep] * SCALES[SCALE]
 
 
 def _exact_int(fr):
@@ -320,7 +321,7 @@ def run_search(prog):
                                      repetitions=reps, mode=MODES[mode])
             for r in results:
                 params = [[str(k), int(v)] for k, v in r.items() if k not in ("records", "score")]
-                recs = [_exact_int(Fraction(x) / Fraction(sc)) for x in r["records"]]
+                recs = [_exact_int((Fraction(x) - Fraction(OFFSETS.get(scale, 0))) / Fraction(sc)) for x in r["records"]]
                 norm = Fraction(sc) ** 2 if "VARIANCE" in mode else Fraction(sc)
                 score = _exact_int(Fraction(r["score"]) / norm * K)
                 report.append({"params": params, "records": recs, "score": score})
@@ -340,7 +341,8 @@ def search_programs_from_tables(tables, modes, procs_choices, scales, rng, grid=
         for mode in modes:
             if "VARIANCE" in mode and reps < 2:
                 continue
-            out.append([["grid_search", g, reps, mode, rng.choice(procs_choices), rng.choice(scales), t]])
+            sc = rng.choice(scales + ["qoff", "qoff"]) if "VARIANCE" in mode else rng.choice(scales)
+            out.append([["grid_search", g, reps, mode, rng.choice(procs_choices), sc, t]])
     return out
 
 
